@@ -18,6 +18,8 @@ TDecode ==
      IN /\ r.ok = 1 => (d.ok /\ r.reenc = d.canon)      \* accepted => well-formed, canonical re-encoding
         \* (refusing an input that is not an honest encoding is always allowed; agreement of the
         \*  verdicts is counted in TLC register 1 and reported)
+        \* the encoding of a value the decoder itself returned must decode again, unchanged
+        /\ r.must = 1 => (r.ok = 1 /\ r.reenc = r.bytes)
         /\ TLCSet(1, TLCGet(1) + (IF (r.ok = 1) = d.ok THEN 1 ELSE 0))
 
 \* an honest value: its encoding is accepted and is its own canonical form
